@@ -286,6 +286,14 @@ def enumerate_cases(tier, seed):
                           "det": "ccd", "entry": "replace-keep", "rep": "list"})
     cases.append({"fam": "R", "times": [1.0], "start": 0.0, "nd": False, "pattern": ["pixel"], "history": "fresh",
                   "det": "ccd", "entry": "ctor", "rep": "default"})
+    # ---- O: observations whose swept parameter is the readout itself (times / start time / mode), sequential and
+    #         parallel execution: every run's models see the clock and the bucket lifecycle of THAT run's readout
+    for key in ("times", "start_time", "non_destructive"):
+        for ex in ("seq", "dask"):
+            for base_nd in (False, True):
+                for det in (("ccd", "cmos") if key == "non_destructive" else ("ccd",)):
+                    cases.append({"fam": "O", "key": key, "exec": ex, "nd": base_nd, "det": det, "times": [1.0, 2.0, 4.0],
+                                  "start": 0.25, "pattern": ["pixel"], "history": "fresh", "entry": "obs", "rep": "list"})
     # ---- X: expressions and negative-time schedules
     for expr in EXPRESSIONS:
         for entry in ("ctor", "yaml", "replace"):
@@ -346,7 +354,8 @@ def expected_size(tier, seed):
     n_i += 6
     depth = 3 if thorough else 2
     n_s = sum(len(SETTER_OPS) ** k for k in range(1, depth + 1))
-    return n_l + n_d + n_r + n_x + n_i + n_s
+    n_o = 2 * 2 * 2 + 2 * 2 * 2 * 1           # family O: (times, start_time) x exec x mode + non_destructive x 2 detectors
+    return n_l + n_d + n_r + n_x + n_i + n_s + n_o
 
 
 # ------------------------------------------------------------------ construction
@@ -569,7 +578,89 @@ def _outcome_sig(trace):
     return pat
 
 
+def _run_obs_sweep(case):
+    """family O"""
+    import dask
+    import pyxel
+    from pyxel.observation import Observation, ParameterValues
+
+    viol = []
+    key, ex = case["key"], case["exec"]
+    salt = _seed() % 5
+
+    def bad(code, what, **extra):
+        k = {"fam": "O", "code": code, "key": key, "exec": ex}
+        k.update(extra)
+        viol.append((k, f"[O] observation sweeping observation.readout.{key} ({ex}, base readout times={case['times']} "
+                        f"start={case['start']} non_destructive={case['nd']}, {case['det']}): {what}"))
+
+    base = {"times": decode(case["times"]), "start": _num(case["start"]), "nd": bool(case["nd"])}
+    if key == "times":
+        # (one readout per run under the parallel execution: it labels the `time` axis with the swept tuples and refuses
+        #  longer schedules loudly - a C07 matter, recorded there as known finding F07-dask-readout-schedules)
+        values = [[1.0, 2.0], [0.5, 3.0, 5.0], [2.0]] if ex == "seq" else [[1.0], [0.5], [7.0]]
+        elems = [dict(base, times=v) for v in values]
+    elif key == "start_time":
+        values = [0.0, 0.5, -1.5]
+        elems = [dict(base, start=v) for v in values]
+    else:
+        values = [True, False]
+        elems = [dict(base, nd=v) for v in values]
+    U.reset()
+    try:
+        det = mk.detector(case["det"], ROWS, COLS)
+        pipe = mk.pipeline(_pipeline_groups(case["pattern"], salt))
+        obs = Observation(parameters=[ParameterValues(key=f"observation.readout.{key}", values=values)], mode="product",
+                          readout=mk.readout(base["times"], base["nd"], base["start"]), with_dask=(ex == "dask"))
+        with dask.config.set(scheduler="synchronous"):
+            res = pyxel.run_mode(obs, det, pipe, with_inherited_coords=True)
+            if ex == "dask":
+                res.load()
+    except NotImplementedError as e:
+        # a sweep the execution path does not implement is refused loudly before any model runs: nothing to judge
+        if U.TRACE:
+            bad("raised", f"NotImplementedError after {len(U.TRACE)} model call(s): {str(e)[:200]}")
+        return {"viol": viol, "sig": cfgx.sig(["O", key, ex, "unsupported"]), "nontrivial": False, "n": 1,
+                "outcome": "unsupported"}
+    except Exception as e:  # noqa: BLE001
+        bad("raised", f"raised {type(e).__name__}: {str(e)[:300]}")
+        return {"viol": viol, "sig": cfgx.sig(["O", key, ex, "raised"]), "nontrivial": True, "n": 1}
+    # split the trace into runs: a run starts at every ("first", step 0)
+    runs = []
+    for t in U.TRACE:
+        if t["name"] == "first" and t["step"] == 0:
+            runs.append([])
+        if not runs:
+            bad("order", f"the trace does not start with the first observer of step 0: {t['name'], t['step']}")
+            break
+        runs[-1].append(t)
+    # every run must be the faithful execution of ONE requested readout; together they cover all requested readouts
+    def matches(run, el):
+        probe = []
+        check_trace(run, el["times"], el["start"], el["nd"], lambda code, what, **kw: probe.append((code, what)), (ROWS, COLS))
+        return probe
+
+    covered = [0] * len(elems)
+    for r in runs:
+        res_per = [matches(r, el) for el in elems]
+        hit = [i for i, pr in enumerate(res_per) if not pr]
+        if not hit:
+            best = min(res_per, key=len)
+            bad("clock", f"a run followed none of the requested readouts {elems}; closest mismatch: {best[0][1]}",
+                field=best[0][0])
+            break
+        covered[hit[0]] += 1
+    else:
+        extra = 1 if ex == "dask" else 0            # (the documented metadata run of one element)
+        if any(c == 0 for c in covered) or sum(covered) > len(elems) + extra:
+            bad("run-set", f"requested readouts {elems} were executed {covered} time(s)")
+    return {"viol": viol, "sig": cfgx.sig(["O", key, ex, case["nd"], case["det"], [_outcome_sig(r) for r in runs]]),
+            "nontrivial": len(runs) >= 2, "n": len(U.TRACE), "outcome": {"runs": len(runs), "covered": covered}}
+
+
 def run_case(case):
+    if case.get("fam") == "O":
+        return _run_obs_sweep(case)
     import pyxel
 
     fam = case["fam"]
